@@ -113,7 +113,7 @@ def _cex(w, m, cls, restored, shape):
     side = None if len(msg) == 0 else msg[0:1].model_bytes(m)[0]
     mode = "junk"
     if len(msg) == len(own) and len(msg) > 1:
-        if z3.is_true(m.eval(msg[1:].eq_term(own[1:]), model_completion=True)):
+        if m is not None and z3.is_true(m.eval(msg[1:].eq_term(own[1:]), model_completion=True)):
             mode = "own"
         else:
             mode = "peer"
